@@ -364,7 +364,7 @@ func (s *session) SetID(newID string) {
 	hub := s.peer.sessHub
 	hub.set(s)
 	verifGate("setid.betweenSetAndDelete", s)
-	hub.delete(oldID)
+	hub.deleteIf(oldID, s)
 	Tracef("session changes id: %s -> %s", oldID, newID)
 }
 
@@ -821,7 +821,7 @@ func (s *session) closeLocked() error {
 		return nil
 	} // readDisconnected is being called
 	verifGate("close.afterCAS", s)
-	s.peer.sessHub.delete(s.ID())
+	s.peer.sessHub.deleteIf(s.ID(), s)
 	s.notifyClosed()
 	verifGate("close.afterIndexDelete", s)
 	s.graceCtxWait()
@@ -848,7 +848,7 @@ func (s *session) readDisconnected(oldConn net.Conn, err error) {
 	}
 	verifGate("rd.afterStatusWrite", s)
 
-	s.peer.sessHub.delete(s.ID())
+	s.peer.sessHub.deleteIf(s.ID(), s)
 
 	var reason string
 	if err != nil && err != socket.ErrProactivelyCloseSocket {
@@ -1014,6 +1014,8 @@ type SessionHub struct {
 	// key: session id (ip, name and so on)
 	// value: *session
 	sessions goutil.Map
+	// mu makes "look at the entry, then replace or remove it" one step
+	mu sync.Mutex
 }
 
 // newSessionHub creates a new sessions hub.
@@ -1026,15 +1028,29 @@ func newSessionHub() *SessionHub {
 
 // set sets a *session.
 func (sh *SessionHub) set(sess *session) {
+	sh.mu.Lock()
 	_sess, loaded := sh.sessions.LoadOrStore(sess.ID(), sess)
 	if !loaded {
+		sh.mu.Unlock()
 		return
 	}
 	verifGate("hub.betweenLoadAndStore", sess)
 	sh.sessions.Store(sess.ID(), sess)
+	sh.mu.Unlock()
+	// the older session under that id is closed (outside the lock: its close visits the hub again)
 	if oldSess := _sess.(*session); sess != oldSess {
 		oldSess.Close()
 	}
+}
+
+// deleteIf deletes the entry for a id, only if it is that *session:
+// the id may meanwhile belong to a newer session that took it over.
+func (sh *SessionHub) deleteIf(id string, sess *session) {
+	sh.mu.Lock()
+	if _sess, ok := sh.sessions.Load(id); ok && _sess.(*session) == sess {
+		sh.sessions.Delete(id)
+	}
+	sh.mu.Unlock()
 }
 
 // get gets *session by id.
